@@ -367,6 +367,64 @@ def run (ctx):
     for nm, node in defs.undefined_names(repo, f):
       ctx.bad('R-DEF', f, "undefined name `%s`" % nm, "NameError on this path", (f.module, node), 'D6')
   connection_str_total(ctx, repo, 'D1')
+  _shared_handler_state(ctx, repo, mod, con)
+  _dpid_presence(ctx, repo, mod, nmod, con, nexus)
+
+def _shared_handler_state (ctx, repo, mod, con):
+  """a handler object shared by all connections (a module-level instance whose table is handed to connections) keeps no state of its
+  own between messages: what one handshake remembers (the outstanding barrier xid) would be overwritten by the next one"""
+  n = 0
+  for nm, val in mod.assigns.items():
+    if not (isinstance(val, ast.Call) and isinstance(val.func, ast.Name) and not val.args): continue
+    cl = mod.classes.get(val.func.id)
+    if cl is None or not any(k.name == 'OpenFlowHandlers' for k in cl.mro()): continue
+    used = any(isinstance(x, ast.Attribute) and x.attr == 'handlers' and isinstance(x.value, ast.Name) and x.value.id == nm for x in ast.walk(mod.tree))
+    if not used: continue
+    n += 1
+    writes = []
+    for k in cl.mro():
+      for f in k.methods.values():
+        if not f.name.startswith(('handle_', '_finish')) or len(f.params) < 2: continue
+        for t, v, s_, kind in q.stores_in(f.node):
+          if isinstance(t, ast.Attribute) and isinstance(t.value, ast.Name) and t.value.id == 'self': writes.append((f, t, s_))
+    if not writes: ctx.ok('R-OWN', mod.short + ':' + nm, "a handler object shared by all connections keeps no per-connection state", "no handler of %s writes self.<attr>" % cl.name, (mod, val), 'D1')
+    for f, t, s_ in writes[:3]:
+      ctx.bad('R-OWN', mod.short + ':' + nm, "a handler object shared by all connections keeps no per-connection state (`self.%s`)" % t.attr,
+              "%s is one %s instance whose table every connection uses, but %s stores per-handshake state in `self.%s`: two overlapping handshakes overwrite each other's value - the first switch's "
+              "barrier reply no longer matches, it is dropped as a failed connect and never gets ConnectionUp" % (nm, cl.name, f.qual, t.attr), (mod, s_), 'D1')
+  ctx.floor('module-level handler objects examined', n, 1)
+
+def _dpid_presence (ctx, repo, mod, nmod, con, nexus):
+  """datapath id 0 is a legal id: whether a connection has one is decided by `is None` / membership, never by truth value"""
+  n = 0
+  def is_dpid (e): return (isinstance(e, ast.Name) and e.id == 'dpid') or (isinstance(e, ast.Attribute) and e.attr == 'dpid')
+  for cl in (con, nexus):
+    for f in cl.methods.values():
+      tests = []
+      for x in walk_no_nested(f.node):
+        if isinstance(x, (ast.If, ast.While, ast.IfExp)): tests.append(x.test)
+        elif isinstance(x, ast.Assert): tests.append(x.test)
+        elif isinstance(x, ast.BoolOp): tests.extend(x.values[:-1] if not isinstance(getattr(x, '_parent_test', None), ast.AST) else x.values)
+      seen = set()
+      def atoms (t):
+        if isinstance(t, ast.BoolOp):
+          for v in t.values:
+            for a in atoms(v): yield a
+        elif isinstance(t, ast.UnaryOp) and isinstance(t.op, ast.Not):
+          for a in atoms(t.operand): yield a
+        else: yield t
+      for t in tests:
+        for a in atoms(t):
+          if id(a) in seen: continue
+          seen.add(id(a))
+          if is_dpid(a):
+            n += 1
+            ctx.bad('R-DOM', f, "whether there is a datapath id is not decided by its truth value", "`%s` is tested for truth: a switch whose datapath id is 0 is treated as having none - it is never "
+                    "withdrawn from / entered into the registry like any other" % norm(a), (f.module, a), 'D5')
+          elif isinstance(a, ast.Compare) and len(a.ops) == 1 and isinstance(a.ops[0], (ast.Is, ast.IsNot, ast.In, ast.NotIn)) and (is_dpid(a.left) or is_dpid(a.comparators[0])):
+            n += 1
+            ctx.ok('R-DOM', f, "whether there is a datapath id is not decided by its truth value", norm(a), (f.module, a), 'D5')
+  ctx.floor('datapath-id presence tests', n, 4)
 
 def disconnect_states (ctx, repo, mod, con, disc, dn, clause):
   g = q.cfg_of(disc)
